@@ -72,6 +72,10 @@ def cases(tier, seed):
     out.append({"id": "rigidcluster", "kind": "rigid", "tier": tier})
     out.append({"id": "rigidcluster:pose-histories", "kind": "rigidhist",
                 "tier": tier})
+    for members in ([0, 1], [0, 1, 2, 4], [1, 2, 3, 4, 5], [3]):
+        out.append({"id": "composite:motion-histories:%s" %
+                    "".join(map(str, members)), "kind": "motionhist",
+                    "members": members, "tier": tier})
     out.append({"id": "composite:nested", "kind": "nested", "tier": tier})
     out.append({"id": "points:single-point-forms", "kind": "single"})
     out.append({"id": "points:numeric-types-and-mixes", "kind": "numtypes"})
@@ -590,6 +594,80 @@ def _run_rigid(case, ck):
     return digest(*acc)
 
 
+MOTIONS = [("rot", (0.3, 0.7, -0.4)), ("rot", (1.2, 0.0, 0.5)),
+           ("trans", (1.0, -2.0, 0.5)), ("trans", (-0.25, 0.0, 3.0)),
+           ("query", None), ("add", None)]
+
+
+def _run_motionhist(case, ck):
+    """a composite moved step by step: every sequence of <= 3 (thorough 4)
+    steps over two rotations, two translations, a read of its derived
+    attributes and (collections) an added member; each step also applied to
+    the object an EARLIER step returned.  After every step: pairwise
+    distances kept; centroid fixed under rotation, shifted by the vector
+    under translation; members at com + R (c - com)"""
+    import itertools
+    import warnings
+    from holopy.scattering import Scatterers, Spheres, Sphere
+    depth = 3 if case["tier"] == "quick" else 4
+    acc = []
+
+    def centres(o):
+        return np.array([np.asarray(x.center, float) for x in o.scatterers])
+    for cls in (Spheres, Scatterers):
+        for seq in itertools.chain.from_iterable(
+                itertools.product(range(len(MOTIONS)), repeat=L)
+                for L in range(2, depth + 1)):
+            with warnings.catch_warnings():
+                warnings.simplefilter("ignore")
+                obj = cls(_mk(case["members"]))
+                for k, mi in enumerate(seq):
+                    kind, arg = MOTIONS[mi]
+                    what = "%s, step %d of %s" % (
+                        cls.__name__, k + 1,
+                        ">".join("%s%r" % MOTIONS[i] for i in seq))
+                    C0 = centres(obj)
+                    com = C0.mean(0)
+                    scale = max(1.0, np.abs(C0).max())
+                    if kind == "query":
+                        for attr in ("center", "centers", "x", "y", "z"):
+                            try:
+                                getattr(obj, attr)
+                            except AttributeError:
+                                pass
+                        ck.trans += 1
+                        continue
+                    if kind == "add":
+                        obj = cls(list(obj.scatterers))
+                        obj.add(Sphere(n=1.5, r=0.1,
+                                       center=(9.0 + k, -7.0, 4.0)))
+                        ck.trans += 1
+                        continue
+                    new = obj.rotated(arg) if kind == "rot" else \
+                        obj.translated(arg)
+                    ck.trans += 1
+                    C1 = centres(new)
+                    ref = com + (C0 - com) @ euler_zyz(*arg).T \
+                        if kind == "rot" else C0 + np.array(arg)
+                    e = float(np.abs(C1 - ref).max() / scale) \
+                        if C1.shape == ref.shape else float("inf")
+                    ck.metric("rigid", e if e != float("inf") else 0.0)
+                    ck.true("rot-about-centroid" if kind == "rot" else
+                            "translation-shifts-members", e <= 1e-11,
+                            "%s: members are not where a rigid %s of the "
+                            "current object puts them (%.2e; centroid moved "
+                            "by %r)" % (what, "rotation about the centroid"
+                                        if kind == "rot" else "translation",
+                                        e, (C1.mean(0) - com).tolist()
+                                        if C1.shape == ref.shape else None))
+                    ck.true("original-untouched",
+                            np.array_equal(centres(obj), C0),
+                            "%s moved the object it was called on" % what)
+                    obj = new
+                acc.append(np.round(centres(obj), 8))
+    return digest(*acc)
+
+
 RIGID_OPS = ["t-elem", "t-inplace-add", "t-assign", "r-elem", "r-slice",
              "r-assign", "add-member", "move-member"]
 
@@ -914,7 +992,7 @@ def run_case(case):
           "csg": _run_csg,
           "points": _run_points, "angles": _run_angles,
           "composite": _run_composite, "rigid": _run_rigid,
-          "rigidhist": _run_rigidhist,
+          "rigidhist": _run_rigidhist, "motionhist": _run_motionhist,
           "nested": _run_nested, "mixedmag": _run_mixedmag}[case["kind"]](
               case, ck)
     return ck.result(fp=fp)
